@@ -39,12 +39,20 @@ Theorem C17_write : forall (T : Type) (zero : T) e L U (data : Z -> T) dim off i
 Proof. intros T zero. exact (write_dense zero). Qed.
 Print Assumptions C17_write.
 
-(* T(): the transposed engine on the same data is the transposed dense matrix *)
-Theorem C17_transpose : forall (T : Type) (zero : T) e L U (data : Z -> T) off i j,
+(* T(): the transposed engine on the same data is the transposed dense matrix; the engine is GENERATED from the
+   transpose_engine typedefs (for a band matrix it depends on the band widths: a diagonal matrix stays row-major) *)
+Theorem C17_transpose : forall (T : Type) (zero : T) e L U (data : Z -> T) off i j, band_ok e L U ->
   let (L', U') := if transpose_swaps_LU e then (U, L) else (L, U) in
-  dense zero (transpose_engine e) L' U' data off i j = dense zero e L U data off j i.
+  dense zero (transpose_engine e L U) L' U' data off i j = dense zero e L U data off j i.
 Proof. intros T zero. exact (transpose_dense zero). Qed.
 Print Assumptions C17_transpose.
+
+(* ... and it can be read inside expressions (hypothesis of C17_read) whenever the matrix owns its data
+   (offset = pack_offset) or is a sub-matrix with a positive offset that could itself be read *)
+Theorem C17_transpose_readable : forall e L U dim off, band_ok e L U -> 1 <= dim ->
+  off = pack_offset e L U dim \/ (read_ok e off /\ 1 <= off) -> read_ok (transpose_engine e L U) off.
+Proof. exact transpose_read_ok. Qed.
+Print Assumptions C17_transpose_readable.
 
 (* diag_vector(k) views the k-th diagonal *)
 Theorem C17_diag : forall (T : Type) (zero : T) e L U (data : Z -> T) dim off k t, 0 <= t < diag_len dim k ->
@@ -72,3 +80,12 @@ Example C17_example :
   read_ok BandR (pack_offset BandR 1 1 4) /\
   read_row 0 BandR 1 1 (fun p => 100 + p) 4 (pack_offset BandR 1 1 4) 2 = [0; 105; 106; 107].
 Proof. split; [exact I|vm_compute; reflexivity]. Qed.
+
+(* non-vacuity for the transpose theorems: the transpose of a packed 3x3 diagonal matrix (offset 0) keeps the
+   row-major engine and row 1 reads 0 d1 0; a packed tridiagonal matrix goes to the column-major engine *)
+Example C17_example_transpose :
+  let off := pack_offset BandR 0 0 3 in
+  off = 0 /\ transpose_engine BandR 0 0 = BandR /\ read_ok (transpose_engine BandR 0 0) off /\
+  read_row 0 (transpose_engine BandR 0 0) 0 0 (fun p => 7 + p) 3 off 1 = [0; 8; 0] /\
+  transpose_engine BandR 1 1 = BandC /\ read_ok BandC (pack_offset BandR 1 1 3).
+Proof. vm_compute. repeat split; discriminate. Qed.
